@@ -428,6 +428,17 @@ def rt_eq(a, b, _d=0):
             return True
     except Exception:
         pass
+    import types as _types
+    import dataclasses as _dc
+    if isinstance(a, _types.FunctionType) and isinstance(b, _types.FunctionType) and _d < 6:
+        # two closures over the same code with equal captured values are the same function value
+        if a.__code__ is not b.__code__:
+            return False
+        ca = [c.cell_contents for c in (a.__closure__ or ())]
+        cb = [c.cell_contents for c in (b.__closure__ or ())]
+        return len(ca) == len(cb) and all(x is y or rt_eq(x, y, _d + 1) for x, y in zip(ca, cb))
+    if _dc.is_dataclass(a) and not isinstance(a, type) and type(a) is type(b) and _d < 6:
+        return all(rt_eq(getattr(a, f.name, None), getattr(b, f.name, None), _d + 1) for f in _dc.fields(a) if f.compare)
     import pane.converters as _C
     if isinstance(a, _C.Converter) and type(a) is type(b) and type(a).__eq__ is object.__eq__ and _d < 6:
         da, db = vars(a), vars(b)
@@ -483,9 +494,19 @@ def methv(name, recv, seq, kw):
 
 
 def ret(key, *args):
+    """the value a call returns; arguments are given in declaration order (keyword-only parameters included)"""
+    import inspect
     f = fnref(key)
+    f = getattr(f, 'inner_f', f)
     try:
-        return f(*args)
+        ps = list(inspect.signature(f).parameters.values())
+        pos, kw = [], {}
+        for p, a in zip(ps, args):
+            if p.kind == p.KEYWORD_ONLY:
+                kw[p.name] = a
+            else:
+                pos.append(a)
+        return f(*pos, **kw)
     except Exception:
         return UNDEF
 
